@@ -186,6 +186,22 @@ func c18RunSet(res *c18Res, feeA, feeI uint, set []c18Proof, onlyAmount int, onl
 		allPpk += ppk[p.Id]
 	}
 	feeAll := ceilFee(allPpk)
+	// the fee the wallet's selection computes for the same proofs: rounded up per keyset group
+	var inPpk, acPpk uint
+	for _, p := range content {
+		if p.Id == inactiveID {
+			inPpk += ppk[p.Id]
+		} else {
+			acPpk += ppk[p.Id]
+		}
+	}
+	feeGroups := ceilFee(inPpk) + ceilFee(acPpk)
+	var inactiveSum uint64
+	for _, p := range content {
+		if p.Id == inactiveID {
+			inactiveSum += p.Amount
+		}
+	}
 	maxPpk := feeA
 	if feeI > maxPpk && hasInactive {
 		maxPpk = feeI
@@ -279,6 +295,14 @@ func c18RunSet(res *c18Res, feeA, feeI uint, set []c18Proof, onlyAmount int, onl
 					need += ceilFee(uint(bits.OnesCount64(amount)+3) * maxPpk)
 				}
 				if need <= balance {
+					// the known selection defect: rounding the fee up per keyset group makes the wallet believe it is short
+					if mix == "mixed-keyset-content" && need-feeAll+feeGroups > balance {
+						mix += "/short-only-by-per-group-fee-rounding"
+					} else if mix == "mixed-keyset-content" && fees && inactiveSum >= amount && inactiveSum < need {
+						// ... and the inactive-first selection stops once the inactive proofs cover the bare amount, then finds the
+						// fees uncovered instead of adding active proofs
+						mix += "/inactive-proofs-cover-amount-but-not-fees"
+					}
 					res.V = append(res.V, rt.Violation{Property: "C18", Key: "C18/send-refused-although-funds-suffice/" + mix, What: fmt.Sprintf("%s failed (%v) although amount %d + fee of spending every proof held %d (+ fee bound of the proofs sent) <= balance %d", ctx, sendErr, amount, feeAll, balance), Replay: rp})
 				}
 				continue
@@ -305,6 +329,13 @@ func c18RunSet(res *c18Res, feeA, feeI uint, set []c18Proof, onlyAmount int, onl
 				if sum > want {
 					k = "more"
 				}
+				// how the value differs: the known fee fix-point defect hands out exactly amount + fee of (popcount(amount)+1)
+				// proofs (the wallet's estimate); anything else is a different deviation
+				how := fmt.Sprintf("off-by=%d", int64(sum)-int64(want))
+				if fees && sum == amount+ceilFee(uint(bits.OnesCount64(amount)+1)*feeA) {
+					how = "value=amount+fee-of-(split+1)-proofs"
+				}
+				cls += "/" + how
 				res.V = append(res.V, rt.Violation{Property: "C18", Key: "C18/sent-value-differs/" + k + "/" + cls, What: fmt.Sprintf("%s handed out %d proofs worth %d; exactly %d is due (amount %d%s)", ctx, len(sent), sum, want, amount, map[bool]string{true: fmt.Sprintf(" + input fee %d of those %d proofs", sentFee, len(sent)), false: ""}[fees]), Replay: rp})
 			}
 			// sender bookkeeping
@@ -364,7 +395,11 @@ func c18RunSet(res *c18Res, feeA, feeI uint, set []c18Proof, onlyAmount int, onl
 					if got > amount {
 						k = "more"
 					}
-					res.V = append(res.V, rt.Violation{Property: "C18", Key: "C18/recipient-nets-" + k + "-than-requested/" + ppkCls, What: fmt.Sprintf("%s: the recipient nets %d after redeeming %d proofs worth %d (mint fee %d), not the requested %d", ctx, got, len(sent), sum, sentFee, amount), Replay: rp})
+					how := fmt.Sprintf("off-by=%d", int64(got)-int64(amount))
+					if sum == amount+ceilFee(uint(bits.OnesCount64(amount)+1)*feeA) {
+						how = "value=amount+fee-of-(split+1)-proofs"
+					}
+					res.V = append(res.V, rt.Violation{Property: "C18", Key: "C18/recipient-nets-" + k + "-than-requested/" + ppkCls + "/" + how, What: fmt.Sprintf("%s: the recipient nets %d after redeeming %d proofs worth %d (mint fee %d), not the requested %d", ctx, got, len(sent), sum, sentFee, amount), Replay: rp})
 				}
 			}
 			if len(res.Samples) < 2 {
